@@ -45,7 +45,7 @@ class Gen:
         return self.g.get_node_names()
 
     def edges(self):
-        return [(e.source.identifier, e.destination.identifier, e.get_edge_type().value) for e in self.g.get_edges()]
+        return [(e.source.identifier, e.destination.identifier, impl.ety(e)) for e in self.g.get_edges()]
 
     def any_name(self):
         r = self.r
